@@ -131,6 +131,17 @@ def soak_then_reprobe(rec, label, probes, soak_iter, n):
         p()
 
 
+def overlapping_pairs(spans):
+    """Number of pairs of calls from DIFFERENT threads whose [start, end] intervals intersect (spans[t] = list of (start, end))."""
+    ev = sorted((s, e, t) for t, sp in enumerate(spans) for s, e in sp)
+    active, n = [], 0
+    for s, e, t in ev:
+        active = [(e2, t2) for e2, t2 in active if e2 > s]
+        n += sum(1 for e2, t2 in active if t2 != t)
+        active.append((e, t))
+    return n
+
+
 def threaded_reprobe(rec, label, thunks, threads=4, rounds=1, switch_interval=2e-5):
     """Concurrent use.  `thunks` = [(name, fn)]; every fn() calls the library with fixed valid arguments and returns a value.
     Each thunk is first run on its own in the main thread with the monitors on (that call is judged like any other and its value
@@ -154,7 +165,9 @@ def threaded_reprobe(rec, label, thunks, threads=4, rounds=1, switch_interval=2e
     base = [outcome(fn) for _, fn in thunks]
     again = [outcome(fn) for _, fn in thunks]
     stable = [i for i in range(len(thunks)) if base[i] == again[i]]          # a thunk that is not repeatable on its own is another check's business
+    import time
     results = [[] for _ in range(threads)]
+    spans = [[] for _ in range(threads)]
     start = threading.Barrier(threads)
 
     def worker(t):
@@ -166,7 +179,10 @@ def threaded_reprobe(rec, label, thunks, threads=4, rounds=1, switch_interval=2e
             for j in range(len(stable)):
                 # round 0: every thread in the same order (the same operation in all threads at once); later rounds: spread out
                 i = stable[(j + t * r_ * max(1, len(stable) // threads) + r_) % len(stable)]
-                results[t].append((i, outcome(thunks[i][1])))
+                t0 = time.perf_counter()
+                o_ = outcome(thunks[i][1])
+                results[t].append((i, o_))
+                spans[t].append((t0, time.perf_counter()))
     old = sys.getswitchinterval()
     _install.PASSTHROUGH[0] = True
     sys.setswitchinterval(switch_interval)
@@ -188,6 +204,10 @@ def threaded_reprobe(rec, label, thunks, threads=4, rounds=1, switch_interval=2e
             rec.check("B-driver.threads", got == base[i], "threads:" + label,
                       "%s returns another value (or raises) when other threads are inside the library at the same time: single-threaded %s, concurrent %s" % (thunks[i][0], base[i][:40], got[:40]),
                       case={"fn": "threads", "label": label, "thunk": thunks[i][0], "threads": threads}, facts={"fn": thunks[i][0].split("[")[0], "kind": "differs-under-concurrency"})
+    ov = overlapping_pairs(spans)
+    rec.event("threads:%s:overlapping-call-pairs(different threads)" % label, ov)
+    if n and not ov:
+        rec.inconclusive.append("threads:%s: no two calls of different threads overlapped in time - the concurrent phase observed no interleaving" % label)
     rec.event("threads:%s:concurrent-calls" % label, n)
     rec.event("threads:%s:threads" % label, threads)
 
